@@ -31,6 +31,8 @@ def run(prog, chk):
     lookup_order(prog, chk)
     scope_vars_complete(prog, chk)
     reuse_overrides_evaluated(prog, chk)
+    own_attributes_outside_scope(prog, chk)
+    pops_follow_pushes(prog, chk)
 
 
 def scope_pairing(prog, chk, rule):
@@ -269,6 +271,24 @@ def scope_vars_complete(prog, chk):
     bb, t, c = wv[0]
     o = R.origin(b, t["args"][0], carriers={})
     src = Callee(o[2]["fn"]).path if o[0] == "call" and "fn" in o[2] else None
+    # ... and the map is not edited on the way (retain / remove / clear ... need a `&mut` borrow of it)
+    edited = False
+    if o[0] == "call":
+        l = o[2]["dest"][0]
+        seen_l, work = set(), [l]
+        while work:
+            x = work.pop()
+            if x in seen_l:
+                continue
+            seen_l.add(x)
+            for (ub, ui, node, how) in R.uses_of(b, x):
+                if ui != R.TERM and "rv" in node:
+                    rv = node["rv"]
+                    if rv["k"] in ("ref", "rawptr") and rv.get("mut"):
+                        edited = True
+                    elif rv["k"] == "use" and not node["lhs"][1]:
+                        work.append(node["lhs"][0])
+    src = None if edited else src
     chk.ob(src is not None and src.endswith("SvgElement::get_attrs"), "A10.scope-vars", "push_element:with_vars", b.where(bb, t.get("line")), "the scope of an element is created from its complete attribute map (get_attrs(), unfiltered)", f"the scope's variables do not come straight from get_attrs() (they come from {src or o[0]}): some attributes of an enclosing <g>/<reuse> no longer shadow outer values")
 
 
@@ -288,3 +308,52 @@ def reuse_overrides_evaluated(prog, chk):
         l = R.origin_local(b, t["args"][0])
         ok = l is not None and l in evald
         chk.ob(ok, "A10.reuse-evaluated-attrs", f"ReuseElement:get_attrs#{k + 1}", b.where(bb, t.get("line")), f"the attributes handed to the target are read from `{b.local_name(l) if l is not None else '?'}`, which was evaluated in the <reuse>'s own scope first", "the attributes handed to the target are read from an element that did not go through eval_attributes() (the raw <reuse>): their {{..}} / $var text is evaluated later, inside the target, where inner definitions capture the names")
+
+
+def own_attributes_outside_scope(prog, chk):
+    """an element's own attributes are evaluated in the *enclosing* scope: in the functions that push a scope for the
+    element they process, eval_attributes() on that element (a clone of `self.0`) happens before the push and never after"""
+    n = 0
+    for path in ("<svgdx::transform::GroupElement as svgdx::transform::EventGen>::generate_events", "<svgdx::reuse::ReuseElement as svgdx::transform::EventGen>::generate_events"):
+        b = prog.body(path)
+        pushes = [bb for (bb, t, c) in b.call_sites(R.path_is(PUSH))]
+        if not pushes:
+            chk.anchor_missing("A13.own-attrs-outside", f"{b.short}: push_element not found")
+            continue
+        for (bb, t, c) in b.call_sites(R.path_endswith("SvgElement::eval_attributes")):
+            l = R.origin_local(b, t["args"][0])
+            if l is None:
+                continue
+            # is the evaluated element a clone of self.0 ?
+            own = False
+            for d in b.defs_of(l):
+                if d[1] == R.TERM and "fn" in d[2] and Callee(d[2]["fn"]).decl_path == "std::clone::Clone::clone":
+                    o = R.origin(b, d[2]["args"][0], carriers={})
+                    if (o[0] == "field" and o[1][0] == 1) or (o[0] == "arg" and o[1] == 1):
+                        own = True  # clone of `self.0` (the element this EventGen wraps)
+            if not own:
+                continue
+            n += 1
+            after = any(bb in b.reach_after(pb) for pb in pushes)
+            chk.ob(not after, "A13.own-attrs-outside", f"{b.short}:eval_attributes", b.where(bb, t.get("line")), "the element's own attributes are evaluated before its scope is pushed", f"{b.short} evaluates the element's own attributes after pushing its scope: an attribute that mentions a name the element itself defines (`<g k=\"2\" v=\"$k\">`) resolves to the element's value instead of the enclosing one")
+    chk.floor("A13.own-attrs-outside", n, 2, "eval_attributes on the element whose scope is pushed")
+
+
+def pops_follow_pushes(prog, chk):
+    """no pop without a push: every pop_element in a function body is dominated by a push_element of that body (closures
+    of the inspect_err idiom run only on the error edge of a call made inside the scope)"""
+    n = 0
+    popw = {POP} | R.wrappers_of(prog, {POP}, forbid={PUSH})
+    pushw = {PUSH} | R.wrappers_of(prog, {PUSH}, forbid={POP})
+    for b in prog.bodies.values():
+        if b.root or b.path in popw or b.path in pushw:
+            continue
+        pops = b.call_sites(lambda c: c.path in popw)
+        if not pops:
+            continue
+        pushes = [bb for (bb, t, c) in b.call_sites(lambda c: c.path in pushw)]
+        for (bb, t, c) in pops:
+            n += 1
+            ok = any(b.dominates(pb, bb) and pb != bb for pb in pushes)
+            chk.ob(ok, "A5.pop-after-push", f"{b.short}:pop@{n}", b.where(bb, t.get("line")), "this pop_element is preceded by a push_element on every path", f"{b.short}: a pop_element can be reached on a path that pushed nothing (the push is conditional, the pop is not): the enclosing element's scope is popped instead, and later siblings lose its variables")
+    chk.floor("A5.pop-after-push", n, 3, "pop_element call in a function body")
